@@ -209,6 +209,16 @@ def check_case(case):
         if not okc:
             bad(f"linearity:{comp}:in{i}", f"g({a}*w1+{bb}*w2) != {a}*g(w1)+{bb}*g(w2) (rel diff {rel:.3e})")
             break
+    # (i') the first seed once more, after w2 and the combination were back-propagated on the same module object: the
+    # result is a function of the current seeds only (any buffer kept between sensitivity() calls shows up here)
+    ok, r = guarded(lambda: run(copy.deepcopy(w1c), 1), "sensitivity")
+    if ok:
+        for i, (x, y) in enumerate(zip(g1, r[0][0])):
+            okc, rel = close(x, y, tol)
+            if not okc:
+                bad(f"repeat_after_other_seeds:{comp}:in{i}", f"g(w1) evaluated again after g(w2) and g(a*w1+b*w2) differs "
+                                                              f"from the first g(w1) (rel diff {rel:.3e})")
+                break
     # (iv) response() leaves input states and set sensitivities bit-identical
     b.mod.reset()
     for s, w in zip(b.sout, copy.deepcopy(w1c)):
